@@ -758,7 +758,7 @@ func c16Correspondence(c *Ctx) {
 
 	// appendStackPointer after random token histories (Encoder drives Tokens/Names)
 	lines, want, inputs = nil, nil, nil
-	var specLines []string
+	var specLines, machLines, idxLines, idxWant []string
 	nh := c.N(3000, 100000)
 	export := jsontext.Internal.Export(&internal.AllowInternalUse)
 	nameAlpha := []string{"a", "b", "a/b", "~", "m~n/", "", "é", "😀", "0", "~1", "k"}
@@ -829,17 +829,43 @@ func c16Correspondence(c *Ctx) {
 			h := strings.Join(hist, " ")
 			lines = append(lines, strings.TrimSpace(fmt.Sprintf("ptr sp %d %s", w, h)))
 			specLines = append(specLines, strings.TrimSpace(fmt.Sprintf("ptr spec %d %s", w, h)))
+			machLines = append(machLines, strings.TrimSpace(fmt.Sprintf("ptr spm %d %s", w, h)))
 			want = append(want, hx(got))
 			inputs = append(inputs, []byte(fmt.Sprintf("%d %s", w, h)))
+		}
+		{
+			var cells []string
+			if pn := guard(func() {
+				d := enc.StackDepth()
+				cells = append(cells, strconv.Itoa(d))
+				for i := 0; i <= d; i++ {
+					k, n := enc.StackIndex(i)
+					cells = append(cells, fmt.Sprintf("%d:%d", byte(k), n))
+				}
+			}); pn != nil {
+				c.Panic("StackIndex", []byte(strings.Join(hist, " ")), pn, nil)
+			} else {
+				idxLines = append(idxLines, strings.TrimSpace("ptr sidx "+strings.Join(hist, " ")))
+				idxWant = append(idxWant, strings.Join(cells, " "))
+			}
 		}
 		c.Hit(fmt.Sprintf("corr/history-len-%d", len(hist)/4*4))
 		c.Case("hist:"+strings.Join(hist, " "), len(hist) >= 2)
 	}
 	ans = or.Ask(lines)
 	ans2 := or.Ask(specLines)
+	ans3 := or.Ask(machLines)
+	for i, a := range or.Ask(idxLines) {
+		if a != idxWant[i] {
+			c.Violate("corr-stackindex", "StackIndex", []byte(idxLines[i]), map[string]any{"line": idxLines[i], "impl": idxWant[i], "model": a})
+		}
+	}
 	for i := range lines {
 		if ans[i] != want[i] {
 			c.Violate("corr-stackptr", "appendStackPointer", inputs[i], map[string]any{"line": lines[i], "impl": want[i], "model": ans[i]})
+		}
+		if ans3[i] != want[i] {
+			c.Violate("corr-stackptr-machine", "appendStackPointer", inputs[i], map[string]any{"line": machLines[i], "impl": want[i], "model": ans3[i]})
 		}
 		if ans2[i] != want[i] {
 			c.Violate("corr-stackptr-spec", "pointerOf", inputs[i], map[string]any{"line": specLines[i], "impl": want[i], "spec": ans2[i]})
